@@ -533,7 +533,11 @@ class HasObservables:
                     ):
                         continue
                     current = self.subscribers[observable][signal_type]
-                    if current is observers or observer in current:
+                    # compared as unobserve compares them (the handlers themselves: bound methods are equal only
+                    # for the same owner object); weak references are equal already when their owners are ==
+                    if current is observers or any(
+                        o() == active_observer for o in current
+                    ):
                         active_observer(signal)
         # because we are using a list of subscribers
         # we should update this list to subscribers that are still alive
